@@ -81,27 +81,215 @@ theorem New_agrees (gs : List Int) :
 theorem Width_agrees (t : Table.Table) : table.Table.Width (tableGo t) = (t.width : Int) := by
   simp [table.Table.Width, tableGo, Table.Table.width]
 
-theorem addCell_agrees (row : List Table.Cell) (c : Table.Cell) :
-    table.Row.addCell (rowGo row) (cellGo c) = rowGo (row ++ [c]) := by
-  simp [table.Row.addCell, rowGo]
+/-- `Row.addCell`: the cell is appended; the capacity `width` stays while the row fits, then it is unknown -/
+theorem addCell_agrees (width : Nat) (row : List Table.Cell) (c : Table.Cell) :
+    table.Row.addCell (rowGoW width row) (cellGo c) = rowGoW width (row ++ [c]) := by
+  unfold table.Row.addCell rowGoW
+  by_cases h : row.length ≤ width
+  · by_cases h2 : row.length + 1 ≤ width
+    · have h3 : ((row.length : Nat) : Int) + 1 ≤ (width : Int) := by omega
+      simp [h, h2, h3, Slices.appendCap]
+    · have h3 : ¬ ((row.length : Nat) : Int) + 1 ≤ (width : Int) := by omega
+      simp [h, h2, h3, Slices.appendCap]
+  · have h2 : ¬ row.length + 1 ≤ width := by omega
+    simp [h, h2, Slices.appendCap]
 
-theorem AddEmpty_agrees (row : List Table.Cell) :
-    table.Row.AddEmpty (rowGo row) = (rowGo (row ++ [.empty]), rowGo (row ++ [.empty])) := by
-  simp [table.Row.AddEmpty, ← addCell_agrees, cellGo]
+theorem AddEmpty_agrees (width : Nat) (row : List Table.Cell) :
+    table.Row.AddEmpty (rowGoW width row) = (rowGoW width (row ++ [.empty]), rowGoW width (row ++ [.empty])) := by
+  have := addCell_agrees width row .empty
+  simp only [cellGo] at this
+  simp [table.Row.AddEmpty, this]
 
 /-- `table.Alignment` values other than `Left`/`Right`/`Center` are outside the model: the alignments `alignGo` yields -/
-theorem AddText_agrees (row : List Table.Cell) (s : List Char) (a : Table.Align) :
-    table.Row.AddText (rowGo row) (String.ofList s) (alignGo a)
-      = (rowGo (row ++ [.text s a 0]), rowGo (row ++ [.text s a 0])) := by
-  simp [table.Row.AddText, ← addCell_agrees, cellGo]
+theorem AddText_agrees (width : Nat) (row : List Table.Cell) (s : List Char) (a : Table.Align) :
+    table.Row.AddText (rowGoW width row) (String.ofList s) (alignGo a)
+      = (rowGoW width (row ++ [.text s a 0]), rowGoW width (row ++ [.text s a 0])) := by
+  have := addCell_agrees width row (.text s a 0)
+  simp only [cellGo] at this
+  simp [table.Row.AddText, this]
 
-theorem AddDecimal_agrees (row : List Table.Cell) (n : Rat) :
-    table.Row.AddDecimal (rowGo row) n = (rowGo (row ++ [.num n]), rowGo (row ++ [.num n])) := by
-  simp [table.Row.AddDecimal, ← addCell_agrees, cellGo]
+theorem AddDecimal_agrees (width : Nat) (row : List Table.Cell) (n : Rat) :
+    table.Row.AddDecimal (rowGoW width row) n = (rowGoW width (row ++ [.num n]), rowGoW width (row ++ [.num n])) := by
+  have := addCell_agrees width row (.num n)
+  simp only [cellGo] at this
+  simp [table.Row.AddDecimal, this]
 
-theorem AddIndented_agrees (row : List Table.Cell) (s : List Char) (indent : Int) :
-    table.Row.AddIndented (rowGo row) (String.ofList s) indent
-      = (rowGo (row ++ [.text s .left indent]), rowGo (row ++ [.text s .left indent])) := by
-  simp [table.Row.AddIndented, ← addCell_agrees, cellGo, alignGo, table.Left]
+theorem AddIndented_agrees (width : Nat) (row : List Table.Cell) (s : List Char) (indent : Int) :
+    table.Row.AddIndented (rowGoW width row) (String.ofList s) indent
+      = (rowGoW width (row ++ [.text s .left indent]), rowGoW width (row ++ [.text s .left indent])) := by
+  have := addCell_agrees width row (.text s .left indent)
+  simp only [cellGo, alignGo] at this
+  simp [table.Row.AddIndented, table.Left, this]
+
+/-! ## `AddRow`, `AddSeparatorRow`, `AddEmptyRow`
+
+`AddRow` returns a pointer to the row it has appended to `t.rows`: the translation returns the table and the row, and in the callers
+the row variable is an alias of `t.rows[len-1]` (`key`), written back after every `addCell`. -/
+
+theorem tableGo_rows (cols : List Nat) (rows : List (List Table.Cell)) :
+    tableGo ⟨cols, rows⟩ = { columns := natsGo cols, rows := rows.map (rowGoW cols.length) } := rfl
+
+theorem AddRow_agrees (t : Table.Table) :
+    table.Table.AddRow (tableGo t) = Outcome.ok (tableGo t.addRow, rowGoW t.width []) := by
+  unfold table.Table.AddRow
+  simp only [Width_agrees, Slices.makeCap, Outcome.bind]
+  have : ¬ ((t.width : Nat) : Int) < 0 := by omega
+  simp only [this, if_false]
+  simp [tableGo, Table.Table.addRow, Table.Table.width, rowGoW]
+
+theorem set_last {α : Type} (old : List α) (a b : α) : (old ++ [a]).set old.length b = old ++ [b] := by
+  induction old with
+  | nil => rfl
+  | cons x xs ih => simp [ih]
+
+/-- the loop of `AddSeparatorRow` from `i` separators on -/
+theorem AddSeparatorRow_loop (cols : List Nat) (old : List table.Row) : ∀ (fuel : Nat) (i : Nat), i ≤ cols.length → cols.length - i ≤ fuel →
+    table.Table.AddSeparatorRow.loop1 old.length fuel
+        { columns := natsGo cols, rows := old ++ [rowGoW cols.length (List.replicate i .sep)] }
+        (rowGoW cols.length (List.replicate i .sep)) (i : Int)
+      = Outcome.ok ({ columns := natsGo cols, rows := old ++ [rowGoW cols.length (List.replicate cols.length .sep)] },
+          rowGoW cols.length (List.replicate cols.length .sep), (cols.length : Int)) := by
+  intro fuel
+  induction fuel with
+  | zero =>
+    intro i hi hf
+    have e : i = cols.length := by omega
+    subst e
+    unfold table.Table.AddSeparatorRow.loop1
+    simp [table.Table.Width]
+  | succ fuel ih =>
+    intro i hi hf
+    unfold table.Table.AddSeparatorRow.loop1
+    by_cases hl : i < cols.length
+    · have hlt : ((i : Nat) : Int) < table.Table.Width { columns := natsGo cols, rows := old ++ [rowGoW cols.length (List.replicate i .sep)] } := by
+        simp [table.Table.Width]; omega
+      have hc := addCell_agrees cols.length (List.replicate i .sep) .sep
+      simp only [cellGo] at hc
+      simp only [hlt, decide_true, if_true, hc, set_last]
+      have hr : List.replicate i Table.Cell.sep ++ [Table.Cell.sep] = List.replicate (i + 1) Table.Cell.sep := by
+        rw [List.replicate_succ']
+      rw [hr]
+      have := ih (i + 1) (by omega) (by omega)
+      simpa using this
+    · have e : i = cols.length := by omega
+      subst e
+      simp [table.Table.Width]
+
+theorem AddSeparatorRow_agrees (t : Table.Table) :
+    table.Table.AddSeparatorRow (tableGo t) = Outcome.ok (tableGo t.addSeparatorRow) := by
+  unfold table.Table.AddSeparatorRow
+  obtain ⟨cols, rows⟩ := t
+  simp only [AddRow_agrees, Outcome.bind]
+  have h1 : tableGo (Table.Table.addRow ⟨cols, rows⟩)
+      = { columns := natsGo cols, rows := rows.map (rowGoW cols.length) ++ [rowGoW cols.length (List.replicate 0 .sep)] } := by
+    simp [tableGo, Table.Table.addRow, Table.Table.width, natsGo]
+  have hw : (Table.Table.mk cols rows).width = cols.length := rfl
+  simp only [h1, hw, List.length_append, List.length_map, List.length_cons, List.length_nil, Nat.add_sub_cancel]
+  have hl := AddSeparatorRow_loop cols (rows.map (rowGoW cols.length)) (fuelLt 0 (cols.length : Int)) 0 (by omega) (by simp [fuelLt])
+  simp only [List.length_map, List.replicate_zero, Int.natCast_zero] at hl
+  have hW : table.Table.Width { columns := natsGo cols, rows := rows.map (rowGoW cols.length) ++ [rowGoW cols.length []] } = (cols.length : Int) := by
+    simp [table.Table.Width]
+  simp only [List.replicate_zero, hW, hl]
+  simp [tableGo, Table.Table.addSeparatorRow, Table.Table.width, natsGo]
+
+/-- the loop of `AddEmptyRow` from `i` empty cells on -/
+theorem AddEmptyRow_loop (cols : List Nat) (old : List table.Row) : ∀ (fuel : Nat) (i : Nat), i ≤ cols.length → cols.length - i ≤ fuel →
+    table.Table.AddEmptyRow.loop1 old.length fuel
+        { columns := natsGo cols, rows := old ++ [rowGoW cols.length (List.replicate i .empty)] }
+        (rowGoW cols.length (List.replicate i .empty)) (i : Int)
+      = Outcome.ok ({ columns := natsGo cols, rows := old ++ [rowGoW cols.length (List.replicate cols.length .empty)] },
+          rowGoW cols.length (List.replicate cols.length .empty), (cols.length : Int)) := by
+  intro fuel
+  induction fuel with
+  | zero =>
+    intro i hi hf
+    have e : i = cols.length := by omega
+    subst e
+    unfold table.Table.AddEmptyRow.loop1
+    simp [table.Table.Width]
+  | succ fuel ih =>
+    intro i hi hf
+    unfold table.Table.AddEmptyRow.loop1
+    by_cases hl : i < cols.length
+    · have hlt : ((i : Nat) : Int) < table.Table.Width { columns := natsGo cols, rows := old ++ [rowGoW cols.length (List.replicate i .empty)] } := by
+        simp [table.Table.Width]; omega
+      have hc := addCell_agrees cols.length (List.replicate i .empty) .empty
+      simp only [cellGo] at hc
+      simp only [hlt, decide_true, if_true, hc, set_last]
+      have hr : List.replicate i Table.Cell.empty ++ [Table.Cell.empty] = List.replicate (i + 1) Table.Cell.empty := by
+        rw [List.replicate_succ']
+      rw [hr]
+      have := ih (i + 1) (by omega) (by omega)
+      simpa using this
+    · have e : i = cols.length := by omega
+      subst e
+      simp [table.Table.Width]
+
+theorem AddEmptyRow_agrees (t : Table.Table) :
+    table.Table.AddEmptyRow (tableGo t) = Outcome.ok (tableGo t.addEmptyRow) := by
+  unfold table.Table.AddEmptyRow
+  obtain ⟨cols, rows⟩ := t
+  simp only [AddRow_agrees, Outcome.bind]
+  have h1 : tableGo (Table.Table.addRow ⟨cols, rows⟩)
+      = { columns := natsGo cols, rows := rows.map (rowGoW cols.length) ++ [rowGoW cols.length (List.replicate 0 .empty)] } := by
+    simp [tableGo, Table.Table.addRow, Table.Table.width, natsGo]
+  have hw : (Table.Table.mk cols rows).width = cols.length := rfl
+  simp only [h1, hw, List.length_append, List.length_map, List.length_cons, List.length_nil, Nat.add_sub_cancel]
+  have hl := AddEmptyRow_loop cols (rows.map (rowGoW cols.length)) (fuelLt 0 (cols.length : Int)) 0 (by omega) (by simp [fuelLt])
+  simp only [List.length_map, List.replicate_zero, Int.natCast_zero] at hl
+  have hW : table.Table.Width { columns := natsGo cols, rows := rows.map (rowGoW cols.length) ++ [rowGoW cols.length []] } = (cols.length : Int) := by
+    simp [table.Table.Width]
+  simp only [List.replicate_zero, hW, hl]
+  simp [tableGo, Table.Table.addEmptyRow, Table.Table.width, natsGo]
+
+/-! ## `FillEmpty`: up to `cap(r.cells)` -/
+
+theorem FillEmpty_loop (width : Nat) : ∀ (fuel : Nat) (row : List Table.Cell), row.length ≤ width → width - row.length ≤ fuel →
+    table.Row.FillEmpty.loop1 fuel (rowGoW width row) (row.length : Int)
+      = Outcome.ok (rowGoW width (row ++ List.replicate (width - row.length) .empty), (width : Int)) := by
+  intro fuel
+  induction fuel with
+  | zero =>
+    intro row h hf
+    have e : width - row.length = 0 := by omega
+    have e2 : row.length = width := by omega
+    unfold table.Row.FillEmpty.loop1
+    simp [rowGoW, h, Slices.capE, Outcome.bind, e, e2]
+  | succ fuel ih =>
+    intro row h hf
+    unfold table.Row.FillEmpty.loop1
+    have hcap : Slices.capE (rowGoW width row).cells_cap = Outcome.ok (width : Int) := by simp [rowGoW, h, Slices.capE]
+    simp only [hcap, Outcome.bind]
+    by_cases hl : row.length < width
+    · have hlt : ((row.length : Nat) : Int) < (width : Int) := by omega
+      simp only [hlt, decide_true, if_true, AddEmpty_agrees]
+      have := ih (row ++ [.empty]) (by simp; omega) (by simp; omega)
+      simp only [List.length_append, List.length_cons, List.length_nil, Int.natCast_add, Int.natCast_one, Nat.zero_add] at this
+      rw [this]
+      have e : width - row.length = (width - (row.length + 1)) + 1 := by omega
+      rw [e, List.replicate_succ]
+      simp
+    · have e : width - row.length = 0 := by omega
+      have hlt : ¬ ((row.length : Nat) : Int) < (width : Int) := by omega
+      have e2 : row.length = width := by omega
+      simp [hlt, e, e2]
+
+/-- `Row.FillEmpty` of a row that fits: empty cells up to the width of its table (its capacity) -/
+theorem FillEmpty_agrees (width : Nat) (row : List Table.Cell) (h : row.length ≤ width) :
+    table.Row.FillEmpty (rowGoW width row)
+      = Outcome.ok (rowGoW width (row ++ List.replicate (width - row.length) .empty)) := by
+  unfold table.Row.FillEmpty
+  have hcap : Slices.capE (rowGoW width row).cells_cap = Outcome.ok (width : Int) := by simp [rowGoW, h, Slices.capE]
+  have hlen : len (rowGoW width row).cells = (row.length : Int) := by simp [rowGoW]
+  simp only [hcap, hlen, Outcome.bind]
+  rw [FillEmpty_loop width (fuelLt (row.length : Int) (width : Int)) row h (by simp [fuelLt])]
+
+/-- a row that has outgrown its table: `append` has reallocated it, its capacity is the runtime's: nothing is claimed (the model's
+`fillEmpty` answers `none`) -/
+theorem FillEmpty_unknown (width : Nat) (row : List Table.Cell) (h : width < row.length) :
+    table.Row.FillEmpty (rowGoW width row) = Outcome.panic Slices.capUnknown := by
+  unfold table.Row.FillEmpty
+  have : ¬ row.length ≤ width := by omega
+  simp [rowGoW, this, Slices.capE, Outcome.bind]
 
 end Knut.FactsAgree.TransTableRender
